@@ -104,6 +104,8 @@ pub fn c07_children_d2_r1() {
 }
 
 /// Same at the deepest pair of levels (resolution 27 → 29, where the marker reaches bit 1).
+/// NOT registered: its only run was killed for memory on a box shared with seven other checks
+/// (13.8 GB RSS, 541 s) and there was no time to repeat it alone; kept for a later session.
 #[kani::proof]
 #[kani::unwind(32)]
 #[kani::stub(alloc::fmt::format, fmt_stub)]
@@ -112,7 +114,7 @@ pub fn c07_children_d2_r27() {
     d2_lite_body(27, 27);
 }
 
-/// Same at the first Hilbert level (resolution 2 → 4).
+/// Same at the first Hilbert level (resolution 2 → 4). NOT registered: never run to completion.
 #[kani::proof]
 #[kani::unwind(32)]
 #[kani::stub(alloc::fmt::format, fmt_stub)]
